@@ -147,6 +147,10 @@ func (i *NetflowV5) run() {
 		netflowV5UDPCh <- NetflowV5UDPMsg{raddr, b[:n]}
 	}
 
+	// the read loop is the only sender: it closes the work queue
+	// once it has stopped, then the workers drain it and exit
+	close(netflowV5UDPCh)
+
 }
 
 func (i *NetflowV5) shutdown() {
@@ -160,9 +164,8 @@ func (i *NetflowV5) shutdown() {
 	logger.Println("stopping netflow v5 service gracefully ...")
 	time.Sleep(1 * time.Second)
 
-	// logging and close UDP channel
+	// logging
 	logger.Println("netflow v5 has been shutdown")
-	close(netflowV5UDPCh)
 }
 
 func (i *NetflowV5) netflowV5Worker(wQuit chan struct{}) {
